@@ -45,6 +45,15 @@ def all_configs():
     return out
 
 
+# searches judged by the oracle only (no Coq model): a checkpointing nested sampler and a particle swarm
+ORACLE_ONLY = [
+    {"search": "dynesty", "remove_files": 1, "csv": 1, "keep_internal": 1, "chk": 0},
+    {"search": "dynesty", "remove_files": 0, "csv": 0, "keep_internal": 0, "chk": 1},
+    {"search": "pyswarms", "remove_files": 1, "csv": 1, "keep_internal": 0, "chk": 0},
+    {"search": "pyswarms", "remove_files": 0, "csv": 0, "keep_internal": 1, "chk": 0},
+]
+
+
 def history(cfg, runs, salt=0):
     h = dict(cfg)
     h["runs"] = runs
@@ -106,7 +115,7 @@ def gen_cases(ctx, configs, probes):
     by_key = {cfg_key(c): (c, r) for c, r in probes}
     cases = []
     # (1) exhaustive single crashes for some configurations (all of them in the thorough tier)
-    keys = sorted(by_key)
+    keys = sorted(k for k in by_key if k.startswith(("drawer", "lbfgs")))
     if thorough:
         # half of the 24 configurations per run (all 8 Drawer settings or a random half, plus LBFGS ones), seed-dependent
         drawers = [k for k in keys if k.startswith("drawer")]
@@ -117,7 +126,7 @@ def gen_cases(ctx, configs, probes):
         lb = [k for k in keys if k.startswith("lbfgs")]
         chosen = rng.sample(drawers, 1) + rng.sample(lb, 1)
     vocab = {}
-    for k in keys:
+    for k in sorted(by_key):
         c, r = by_key[k]
         fresh = points_of(r["runs"][0]["trace"])
         rerun = points_of(r["runs"][1]["trace"]) if len(r["runs"]) > 1 else []
@@ -149,6 +158,20 @@ def gen_cases(ctx, configs, probes):
         cases.append(history(c, [FULL, FULL, FULL]))
         cases.append(history(c, [crash(("LL", "LL", rng.randint(0, 6)), "before"), FULL, FULL]))
         cases.append(history(c, [FULL, crash(rng.choice([("A", "Log", 0), ("R", "Log", 0), ("W", "Other:db.info", 0)]), "before"), FULL]))
+    # (1d) oracle-only searches: Dynesty (checkpoint file savestate.save) and PySwarms; symbolic kill points from the probe
+    for k in sorted(by_key):
+        if not k.startswith(("dynesty", "pyswarms")):
+            continue
+        c, _ = by_key[k]
+        fresh, rerun = vocab[k]
+        cases.append(history(c, [FULL, FULL, FULL]))
+        prio = [pt for pt in fresh if "savestate" in pt[1] or pt[1] in ("Marker", "ZipTmp", "Zip", "DillTmp", "Dill", "ResultExtraTmp")]
+        n = (10 if thorough else 2)
+        for pt in rng.sample(prio, min(n, len(prio))) + rng.sample(fresh, min(n, len(fresh))):
+            cases.append(history(c, [crash(pt, rng.choice(variants_of(pt[0]))), FULL, FULL]))
+        for pt in rng.sample(rerun, min(n // 2, len(rerun))):
+            cases.append(history(c, [FULL, crash(pt, rng.choice(variants_of(pt[0]))), FULL]))
+        cases.append(history(c, [crash(("LL", "LL", rng.randint(0, 300)), "before"), FULL, FULL]))
     # (1c) LBFGS update-block counts outside the enumerated configurations (0 = maxiter 0, 3, 4), kills at likelihood calls
     for u in ((0, 3, 4) if thorough else (0, 3)):
         c = {"search": "lbfgs", "updates": u, "remove_files": rng.randint(0, 1), "csv": rng.randint(0, 1), "keep_internal": rng.randint(0, 1),
@@ -161,7 +184,7 @@ def gen_cases(ctx, configs, probes):
                 cases.append(history(c, [crash(pt, rng.choice(variants_of(pt[0]))), FULL, FULL]))
             cases.append(history(c, [crash(("LL", "LL", rng.randint(0, 40)), "before"), FULL, FULL]))
     # (2) random multi-crash histories over every configuration
-    n_multi = 700 if thorough else 60
+    n_multi = 600 if thorough else 45
     for i in range(n_multi):
         k = rng.choice(keys)
         c, _ = by_key[k]
@@ -209,6 +232,10 @@ def labels(case):
         return ["database-paths-drawer" if case["search"] == "drawer" else "database-paths-rerun"]
     if case["search"] == "lbfgs" and case.get("updates") == 0:
         out.add("lbfgs-zero-iterations")
+    if case["search"] == "pyswarms" and case["keep_internal"]:
+        out.add("pyswarms-keep-internal")
+    if case["search"] == "pyswarms" and any(r.get("crash") for r in case["runs"]):
+        out.add("pyswarms-interrupted")
     crashes = [r["crash"] for r in case["runs"] if r.get("crash")]
     for cr in crashes:
         if cr["kind"] in ("ZW",) and cr["variant"] in ("empty", "half"):
@@ -258,6 +285,35 @@ def dill_of(fs):
 def close(a, b):
     a, b = float.fromhex(a), float.fromhex(b)
     return a == b or abs(a - b) <= 1e-12 * max(abs(a), abs(b))
+
+
+def sample_rows(r):
+    return [tuple(float.fromhex(v) for v in [ll] + list(par) + list(w))
+            for ll, par, w in zip(r["samples_ll"], r["samples_par"], r.get("samples_w") or [[]] * len(r["samples_ll"]))]
+
+
+def row_close(a, b):
+    return len(a) == len(b) and all(x == y or abs(x - y) <= 1e-12 * max(abs(x), abs(y)) for x, y in zip(a, b))
+
+
+def samples_differ(o, r, o_in_memory):
+    """The re-run returns the persisted samples (likelihood, parameters, weight, log prior). The run that sampled returns
+    its in-memory samples, of which the table is the part above the weight threshold: then the re-run must be a sub-list."""
+    A, B = sample_rows(o), sample_rows(r)
+    if not o_in_memory:
+        if len(A) != len(B) or not all(row_close(a, b) for a, b in zip(A, B)):
+            return "two re-runs of the completed fit return different samples"
+        return None
+    k = 0
+    for b in B:
+        while k < len(A) and not row_close(A[k], b):
+            k += 1
+        if k == len(A):
+            return "a returned sample is not one of the samples of the completed run (in order)"
+        k += 1
+    if not B:
+        return "no samples returned"
+    return None
 
 
 def stored_tag(fs, csv):
@@ -354,11 +410,13 @@ def oracle(case, res):
                     if r["summary_ll"] != o["summary_ll"] or r["instance"] != o["instance"] or r.get("median") != o.get("median"):
                         fails.append(("result-changed", "run %d reports best fit %s / %s, run %d reported %s / %s" % (
                             i, r["summary_ll"], r["instance"], j, o["summary_ll"], o["instance"])))
+                    elif r.get("stats") != o.get("stats"):
+                        diff = [k for k in (r.get("stats") or {}) if (o.get("stats") or {}).get(k) != r["stats"][k]]
+                        fails.append(("summary-changed", "run %d reports other summary statistics than run %d: %s" % (i, j, diff)))
                     if case["csv"] and r["samples_ll"] is not None and o["samples_ll"] is not None:
-                        if (len(r["samples_ll"]) != len(o["samples_ll"])
-                                or not all(close(a, b) for a, b in zip(r["samples_ll"], o["samples_ll"]))
-                                or not all(close(a, b) for x, y in zip(r["samples_par"], o["samples_par"]) for a, b in zip(x, y))):
-                            fails.append(("samples-changed", "run %d returns other samples than run %d" % (i, j)))
+                        msg = samples_differ(o, r, res["runs"][j]["evals"] != 0)
+                        if msg:
+                            fails.append(("samples-changed", "run %d vs run %d: %s" % (i, j, msg)))
         if done is not None:
             # (durable) the completed result is never lost, corrupted or replaced -- whatever happens to later runs
             j, g = done
@@ -566,6 +624,8 @@ def run(ctx):
         history({"search": "drawer", "remove_files": 0, "csv": 0, "keep_internal": 1, "chk": 0}, [crash(("W", "StartTime", 0), "empty"), FULL]),
         history(dict(lb, chk=1), [crash(("W", "Marker", 0), "before"), FULL]),
     ]
+    extra_cfgs = [] if ctx.replay else ORACLE_ONLY
+    configs = configs + extra_cfgs
     pcs = probe_cases(configs)
     pres = run_histories(pcs + extra_cases, chunk=2)
     for attempt in range(2):      # a probe lost to a driver hiccup (time-out on a loaded machine) is simply run again
@@ -623,7 +683,7 @@ def run(ctx):
         for sig, msg in fails:
             ctx.oracle["failures"] += 1
             ctx.failure("oracle", msg, c, classes=["%s:%s" % (l, sig) for l in lab], impl=compact(res))
-        if c.get("db"):
+        if c.get("db") or c["search"] in ("dynesty", "pyswarms"):
             continue
         try:
             coq_cases.append(coq_case(c, res, flags))
